@@ -8,13 +8,18 @@ import Compress.Drv.XFlateReader
 namespace Compress.Drv
 open Compress.Util Compress.XFlate
 
+def parseErrTag (s : String) : Option Err :=
+  if s.startsWith "other" then some (.other ((s.drop 5).toString.toNat?.getD 0))
+  else if s = "closed" then some (.other 100)  -- a Closed-coded sink error passed on by the compressor
+  else parseErr s
+
 def parseOracle (s : String) : Option (List ZEv) :=
   (splitList s ';').mapM fun t =>
     match t.splitOn ":" with
     | [k, n, em, e, f] => do
       let kind ← match k with
         | "zwrite" => some ZKind.zwrite | "zflush" => some ZKind.zflush | "zreset" => some ZKind.zreset | _ => none
-      pure { kind := kind, n := ← parseNat n, emitted := ← bytesOfHex em, err := parseErr e, sinkFailed := f == "1" }
+      pure { kind := kind, n := ← parseNat n, emitted := ← bytesOfHex em, err := parseErrTag e, sinkFailed := f == "1" }
     | _ => none
 
 def parseSink (s : String) : Sink :=
@@ -23,9 +28,6 @@ def parseSink (s : String) : Sink :=
     { budget := (parseInt b).bind (fun i => if i < 0 then none else some i.toNat),
       mode := if m = "short" then .short else .hard, forever := f == "1", tag := (parseNat t).getD 7 }
   | _ => {}
-
-def parseErrTag (s : String) : Option Err :=
-  if s.startsWith "other" then some (.other ((s.drop 5).toString.toNat?.getD 0)) else parseErr s
 
 def runXwOps : XWState → List String → List String → List String
   | s, [], acc => (s!"sink={hexOfBytes s.sink.got}" :: (if s.bad then ["ORACLE-MISMATCH"] else []) ++ acc).reverse
